@@ -471,23 +471,6 @@ def rule_GE(ctx):
             has(f'_q_ = point_to_square_loop({c[1]["_c_"]}, {b["_l_"]})',
                 init) for c in find(f'_c_ = (*_ctr_, {b["_a_"]}, '
                                     f'{b["_e_"]})', init))
-    # ... and keep them as the dipole's own azimuth / elevation / length: the
-    # generic getters derive these from `points`, which for a magnetic dipole
-    # are the five points of the LOOP (four side angles, perimeter)
-    okm = False
-    if u:
-        b = u[0][1]
-        okm = has(f'self._length = {b["_l_"]}', init) and (
-            has(f'self._azimuth, self._elevation = {b["_a_"]}, {b["_e_"]}',
-                init) or (has(f'self._azimuth = {b["_a_"]}', init) and
-                          has(f'self._elevation = {b["_e_"]}', init)))
-    ctx.check('C10.GE.formats', 'magnetic dipole from two electrodes keeps '
-              'its azimuth / elevation / length', okm,
-              'azimuth, elevation and length of a TxMagneticDipole given by '
-              'two electrodes are later derived from the loop points: four '
-              'side angles and the perimeter instead of the dipole values '
-              '(the conversion back to centre/azimuth/elevation/length form '
-              'fails)', ctx.where(em, init))
     ret = [n for n in ast.walk(d2p) if isinstance(n, ast.Return)]
     ctx.check('C10.GE.formats', 'Dipole: (azimuth, elevation, length) of '
               'the two-electrode format keep their roles', ok,
